@@ -93,7 +93,14 @@ RULE = ('scenarios on the virtual-time loop with the real NDNApp (v2 with the re
         'make_command, the response bytes and parse_response of them. In the scenario stream the model is the COMPOSED '
         'model: it receives the bytes of every Data packet the scripted forwarder sends (valid / broken signature, '
         'ControlResponse / garbage / no Content) and its command wires are compared byte for byte with the wires on '
-        'the face. non-trivial = at least two commands or a '
+        'the face; plus the stream ds (harness/props/c17_datasets.py, oracle only): HISTORIES of 2-8 management messages of '
+        'every kind (ControlResponse through parse_response and through the model, ControlParameters, faces/list, faces/query '
+        'filter, rib/list, fib/list, strategy-choice/list, cs/info, status/general, face event notification) written by the '
+        'harness\'s own TLV writer (also wider-than-minimal integers) or the library\'s encoder and decoded one after the other '
+        'in a forked child (= a fresh process), fields that share a TLV-TYPE number in different messages carrying equal '
+        'numbers; every field read right away / after all decodes / in reverse / twice, after repr / == / asdict, while the '
+        'caller edits the objects it read before; compared with what was encoded including the Python type (int, the '
+        'declared enumeration and member name, the nested message class). non-trivial = at least two commands or a '
         'non-200 reply (byte-level: a keyword besides name or a prefix of two components); distinct = distinct cases')
 
 PREFIXES = ['/a', '/a/b', '/app/x/y', '/8=%00%01/z', '/', '/' + 'k' * 260, '/r1', '/r2/s', '/r3']
@@ -304,9 +311,13 @@ def _by_case(rng, tier):
 
 
 def cases(rng, tier):
-    from props import c17_openwindow as OW, c17_reconnect as RC
+    from props import c17_openwindow as OW, c17_reconnect as RC, c17_datasets as DS
     yield from OW.cases(rng, tier)
     yield from RC.cases(rng, tier)
+    # its own generator, seeded from the state of the given one without drawing from it: the histories of decodes do not
+    # move the other streams of a seed
+    import random
+    yield from DS.cases(random.Random(hashlib.sha1(repr(rng.getstate()).encode()).hexdigest()), tier)
     n_sm, n_pr = (260, 200) if tier == 'quick' else (7000, 4000)
     n_by = 160 if tier == 'quick' else 4000
     # a few fixed shapes first: the replies NFD really sends
@@ -344,6 +355,10 @@ def shrink(case):
     if case['mode'] == 'rc':
         from props import c17_reconnect as RC
         yield from RC.shrink(case)
+        return
+    if case['mode'] == 'ds':
+        from props import c17_datasets as DS
+        yield from DS.shrink(case)
         return
     if case['mode'] == 'by':
         for k in sorted(case['kw']):
@@ -762,6 +777,9 @@ def run_impl(case):
     if case['mode'] == 'rc':
         from props import c17_reconnect as RC
         return RC.run(case)
+    if case['mode'] == 'ds':
+        from props import c17_datasets as DS
+        return DS.run(case)
     if case['mode'] == 'pr':
         return _run_pr(case)
     if case['mode'] == 'by':
@@ -1199,7 +1217,7 @@ def _by_line(case, impl):
 
 
 def model_line(case, impl):
-    if case['mode'] in ('ow', 'rc'):
+    if case['mode'] in ('ow', 'rc', 'ds'):
         return None
     if case['mode'] == 'by':
         return _by_line(case, impl)
@@ -1441,6 +1459,9 @@ def oracle(case, impl):
     if case['mode'] == 'rc':
         from props import c17_reconnect as RC
         return RC.oracle(case, impl)
+    if case['mode'] == 'ds':
+        from props import c17_datasets as DS
+        return DS.oracle(case, impl)
     """the property statement, evaluated on the implementation's observable behaviour only"""
     if case['mode'] == 'pr':
         if 'encode_error' in impl:
@@ -1517,6 +1538,9 @@ def oracle(case, impl):
 def nontrivial(case, impl):
     if case['mode'] in ('ow', 'rc'):
         return True
+    if case['mode'] == 'ds':
+        from props import c17_datasets as DS
+        return DS.nontrivial(case, impl)
     if case['mode'] == 'by':
         return bool(case['kw']) or len(case['prefix']) >= 2
     if case['mode'] == 'pr':
@@ -1531,6 +1555,9 @@ def tags(case, impl):
     if case['mode'] == 'rc':
         from props import c17_reconnect as RC
         return RC.tags(case, impl)
+    if case['mode'] == 'ds':
+        from props import c17_datasets as DS
+        return DS.tags(case, impl)
     if case['mode'] == 'by':
         t = ['by', 'by-kw:%d' % len(case['kw']), 'by-local:%s' % case['local'], 'by-comps:%d' % min(len(case['prefix']), 5),
              'by-name-' + impl['name'][0], 'by-resp-' + impl['resp_wire'][0],
@@ -1584,6 +1611,9 @@ def tags(case, impl):
 
 
 def finding_key(case, impl, why):
+    if case['mode'] == 'ds':
+        from props import c17_datasets as DS
+        return DS.finding_key(case, impl, why)
     if case['mode'] == 'ow':
         import re
         return 'ow-' + re.sub(r'[^a-z]+', '-', re.sub(r'connection \d+', 'connection', why).lower())[:70]
